@@ -1,12 +1,294 @@
 package appstateexec
 
 import (
+	"context"
+	"errors"
+	"sync"
 	"testing"
+	"testing/synctest"
+	"time"
+
+	eth2api "github.com/attestantio/go-eth2-client/api"
+	eth2v1 "github.com/attestantio/go-eth2-client/api/v1"
+	eth2p0 "github.com/attestantio/go-eth2-client/spec/phase0"
+	"github.com/jonboulle/clockwork"
+	"github.com/libp2p/go-libp2p/core/host"
+	"github.com/libp2p/go-libp2p/core/peer"
+	mocknet "github.com/libp2p/go-libp2p/p2p/net/mock"
+	"github.com/prometheus/client_golang/prometheus"
+	pb "github.com/prometheus/client_model/go"
+
+	"github.com/obolnetwork/charon/app/promauto"
+	"github.com/obolnetwork/charon/testutil/beaconmock"
 
 	"verifharness/drv"
 )
 
+// readyz part: the real app.startReadyChecker on a scripted beacon node and mocknet hosts.
+//
+// Steps: Start{genok, specok} SetBN{err, syncing, dist, lat ms} SetPC{err, n} Conn{k} Vapi{} Adv{d ms}.
+
+var (
+	regOnce sync.Once
+	reg     *prometheus.Registry
+)
+
+// registry holds every metric charon's packages created through app/promauto (the process-wide gauges the components set).
+func registry(t *testing.T) *prometheus.Registry {
+	regOnce.Do(func() {
+		r, err := promauto.NewRegistry(nil)
+		if err != nil {
+			t.Fatalf("registry: %v", err)
+		}
+		reg = r
+	})
+
+	return reg
+}
+
+// gather returns the metric families with the given names.
+func gather(t *testing.T, names ...string) map[string]*pb.MetricFamily {
+	fams, err := registry(t).Gather()
+	if err != nil {
+		t.Fatalf("gather: %v", err)
+	}
+	res := map[string]*pb.MetricFamily{}
+	for _, f := range fams {
+		for _, n := range names {
+			if f.GetName() == n {
+				res[n] = f
+			}
+		}
+	}
+
+	return res
+}
+
+func readyzGauge(t *testing.T) int {
+	f := gather(t, "app_monitoring_readyz")["app_monitoring_readyz"]
+	if f == nil || len(f.GetMetric()) != 1 {
+		return -1
+	}
+
+	return int(f.GetMetric()[0].GetGauge().GetValue())
+}
+
+// statusOf names what the returned function says (by the error's text; an unknown text is logged as it is).
+func statusOf(err error) string {
+	if err == nil {
+		return "ready"
+	}
+	switch err.Error() {
+	case "ready check uninitialised":
+		return "uninit"
+	case "quorum peers not connected":
+		return "peers"
+	case "beacon node down":
+		return "bndown"
+	case "beacon node far behind":
+		return "farbehind"
+	case "beacon node not synced":
+		return "syncing"
+	case "beacon node has zero peers":
+		return "zeropeers"
+	case "vc not connected":
+		return "vc"
+	}
+
+	return "other:" + err.Error()
+}
+
+type bnAnswer struct {
+	err, syncing bool
+	dist         int
+	lat          time.Duration
+}
+
+type rzEnv struct {
+	*rec
+	t       *testing.T
+	mu      sync.Mutex
+	bn      bnAnswer
+	pcErr   bool
+	pcN     int
+	genok   bool
+	specok  bool
+	sd      time.Duration
+	spe     uint64
+	genesis time.Time
+	ready   func() error
+	quit    chan struct{}
+}
+
+type rzClient struct {
+	beaconmock.Mock
+
+	e *rzEnv
+}
+
+func (c rzClient) Spec(context.Context, *eth2api.SpecOpts) (*eth2api.Response[map[string]any], error) {
+	if !c.e.specok {
+		return nil, errors.New("verif: spec unavailable")
+	}
+
+	return &eth2api.Response[map[string]any]{Data: map[string]any{"SECONDS_PER_SLOT": c.e.sd, "SLOTS_PER_EPOCH": c.e.spe},
+		Metadata: map[string]any{}}, nil
+}
+
+func (e *rzEnv) client() rzClient {
+	m := beaconmock.Mock{
+		GenesisFunc: func(context.Context, *eth2api.GenesisOpts) (*eth2v1.Genesis, error) {
+			if !e.genok {
+				return nil, errors.New("verif: genesis unavailable")
+			}
+
+			return &eth2v1.Genesis{GenesisTime: e.genesis}, nil
+		},
+		NodeSyncingFunc: func(context.Context, *eth2api.NodeSyncingOpts) (*eth2v1.SyncState, error) {
+			e.mu.Lock()
+			a := e.bn
+			e.mu.Unlock()
+			e.log(drv.Step{"ev": "Sync", "status": statusOf(e.ready()), "gauge": readyzGauge(e.t)})
+			if a.lat > 0 {
+				select {
+				case <-time.After(a.lat):
+				case <-e.quit:
+				}
+			}
+			if a.err {
+				return nil, errors.New("verif: beacon node down")
+			}
+
+			return &eth2v1.SyncState{IsSyncing: a.syncing, SyncDistance: eth2p0.Slot(a.dist)}, nil
+		},
+		NodePeerCountFunc: func(context.Context, *eth2api.NodePeerCountOpts) (*eth2v1.PeerCount, error) {
+			e.mu.Lock()
+			perr, n := e.pcErr, e.pcN
+			e.mu.Unlock()
+			e.log(drv.Step{"ev": "PC"})
+			if perr {
+				return nil, errors.New("verif: peer count unavailable")
+			}
+
+			return &eth2v1.PeerCount{Connected: uint64(n)}, nil
+		},
+	}
+
+	return rzClient{Mock: m, e: e}
+}
+
 func runReadyz(t *testing.T, tr *drv.Tracer, sid int, sched []drv.Step) (hung bool) {
-	t.Fatalf("not implemented")
+	cfg := sched[0]
+	np := drv.Num(cfg["np"])
+	e := &rzEnv{rec: &rec{start: time.Now()}, t: t, sd: ms(cfg["sd"]), spe: uint64(drv.Num(cfg["spe"])), pcN: 50,
+		quit: make(chan struct{})}
+	e.genesis = e.start.Add(ms(cfg["gen"]))
+	ctx, cancel := context.WithCancel(context.Background())
+
+	mn := mocknet.New()
+	var (
+		hosts []host.Host
+		ids   []peer.ID
+	)
+	for range np {
+		h, err := mn.GenPeer()
+		if err != nil {
+			t.Fatalf("mocknet peer: %v", err)
+		}
+		hosts = append(hosts, h)
+		ids = append(ids, h.ID())
+	}
+	if err := mn.LinkAll(); err != nil {
+		t.Fatalf("mocknet link: %v", err)
+	}
+	synctest.Wait()
+	connected := map[int]bool{}
+
+	e.log(drv.Step{"ev": "Reset", "sid": sid, "part": "readyz", "sd": drv.Num(cfg["sd"]), "spe": drv.Num(cfg["spe"]), "np": np,
+		"gen": drv.Num(cfg["gen"]), "gauge": readyzGauge(t)})
+	vapi := make(chan struct{})
+	started := false
+
+	for _, st := range sched[1:] {
+		switch drv.Str(st["ev"]) {
+		case "Start":
+			e.genok, e.specok = st["genok"] == true, st["specok"] == true
+			e.log(drv.Step{"ev": "Start", "genok": e.genok, "specok": e.specok})
+			e.ready = startReadyChecker(ctx, hosts[0], e.client(), ids, clockwork.NewRealClock(), vapi)
+			started = true
+		case "SetBN":
+			e.mu.Lock()
+			e.bn = bnAnswer{err: st["err"] == true, syncing: st["syncing"] == true, dist: drv.Num(st["dist"]), lat: ms(st["lat"])}
+			e.mu.Unlock()
+			e.log(drv.Step{"ev": "SetBN", "err": st["err"] == true, "syncing": st["syncing"] == true, "dist": drv.Num(st["dist"]), "lat": drv.Num(st["lat"])})
+		case "SetPC":
+			e.mu.Lock()
+			e.pcErr, e.pcN = st["err"] == true, drv.Num(st["n"])
+			e.mu.Unlock()
+			e.log(drv.Step{"ev": "SetPC", "err": st["err"] == true, "n": drv.Num(st["n"])})
+		case "Conn":
+			// exactly the cluster peers 1..k are connected to this node; "dup" opens a second connection to peer 1
+			k := drv.Num(st["k"])
+			for i := 1; i < np; i++ {
+				switch {
+				case i <= k && !connected[i]:
+					if _, err := mn.ConnectPeers(ids[0], ids[i]); err != nil {
+						t.Fatalf("connect: %v", err)
+					}
+					connected[i] = true
+				case i > k && connected[i]:
+					if err := mn.DisconnectPeers(ids[0], ids[i]); err != nil {
+						t.Fatalf("disconnect: %v", err)
+					}
+					connected[i] = false
+				}
+			}
+			if st["dup"] == true && k >= 1 {
+				if _, err := mn.ConnectPeers(ids[0], ids[1]); err != nil {
+					t.Fatalf("connect: %v", err)
+				}
+			}
+			synctest.Wait()
+			// the environment's own bookkeeping, checked against the network (not against the component)
+			got := 0
+			for i := 1; i < np; i++ {
+				if len(hosts[0].Network().ConnsToPeer(ids[i])) > 0 {
+					got++
+				}
+			}
+			if got != k {
+				t.Fatalf("mocknet: %d peers connected, wanted %d", got, k)
+			}
+			e.log(drv.Step{"ev": "Conn", "k": k})
+		case "Vapi":
+			e.log(drv.Step{"ev": "Vapi"})
+			go func() { // app.go: vapiCallsFunc
+				select {
+				case <-ctx.Done():
+				case vapi <- struct{}{}:
+					e.log(drv.Step{"ev": "VapiRet"})
+				}
+			}()
+		case "Adv":
+			time.Sleep(ms(st["d"]))
+			synctest.Wait()
+			if !started {
+				t.Fatalf("schedule %d: Adv before Start", sid)
+			}
+			e.log(drv.Step{"ev": "Adv", "d": drv.Num(st["d"]), "status": statusOf(e.ready()), "gauge": readyzGauge(t)})
+		default:
+			t.Fatalf("readyz: unknown step %v", st)
+		}
+		synctest.Wait()
+	}
+	e.log(drv.Step{"ev": "End"})
+	cancel()
+	close(e.quit)
+	synctest.Wait()
+	_ = mn.Close()
+	time.Sleep(10 * time.Second)
+	synctest.Wait()
+	e.flush(tr)
+
 	return false
 }
